@@ -515,3 +515,31 @@ def make_bind_c(templated):
 bind_c_plain = make_bind_c(False)
 bind_c_templ = make_bind_c(True)
 UNITS += [bind_c_plain, bind_c_templ]
+
+
+# ================================================================================================ struct members (C05)
+# Wrapf.wrap_struct, body of the loop over the members: a pointer member is declared type(C_PTR) and C_PTR is registered
+# for the module's USE; any other member is rendered by gen_arg_as_fortran and the module of its typemap is registered.
+struct_member = Unit(
+    prop="C05", name="Wrapf.wrap_struct[member]", target="shroud/wrapf.py::Wrapf.wrap_struct",
+    slice=("ast = var.ast", "if ast.is_indirect(): pass"),
+    params={"self": ("obj", "Wrapf", {}),
+            "var": ("obj", "VariableNode", {"ast": ("obj", "Declaration", {"typemap": TYPEMAP_R, "is_indirect()": "int",
+                                                                            "gen_arg_as_fortran()": "str"}),
+                                            "fmtdict": ("obj", "Fmt", {"variable_name": "str"})}),
+            "fileinfo": ("obj", "ModuleInfo", {"module_use": "opaque"}), "output": "list[str]"},
+    callees={("Wrapf", "set_f_module"): _set_f_module, ("Wrapf", "update_f_module"): _update_f_module},
+    init="n0 = len(output)\nnreg = 0\nreg_mod = ''\nreg_sym = ''\nnupd = 0\n",
+    prebind={"upd_": "py"},
+    ensures=[
+        "len(output) == n0 + 1",
+        "implies(var.ast.is_indirect(), output[n0] == 'type(C_PTR) :: ' + var.fmtdict.variable_name "
+        "and nreg == 1 and reg_mod == 'iso_c_binding' and reg_sym == 'C_PTR')",
+        "implies(not var.ast.is_indirect(), output[n0] == var.ast.gen_arg_as_fortran() and nupd == 1 "
+        "and upd_ == (var.ast.typemap.f_c_module or var.ast.typemap.f_module))",
+    ],
+    raises=[],
+)
+struct_member.global_callees["append_format"] = VFun("append_format[wformat model]", _append_format)
+struct_member.pure_callees = ["set_f_module", "update_f_module"]
+UNITS_C05 = [struct_member]
